@@ -43,7 +43,7 @@ HOOK_COMMITS = ["0049d5e", "3ca7037", "66fb88e"]
 # Manifest metadata per claimed property.
 META = {
     "C01": {
-        "technique": "stateful property-based testing (rapid): generated multi-replica append/merge programs checked against a set-union reference model, convergence compared across replicas",
+        "technique": "stateful property-based testing (rapid): generated multi-replica append/merge programs checked against a set-union reference model, convergence compared across replicas; plus generated concurrent multi-log programs (cooperative scheduler) followed by a complete exchange after which all logs must agree",
         "text": "Generated histories (2-5 replicas, shared writers, both orderings, default and link-key codecs) followed by a complete exchange in generated pair order with repetitions; after every operation the entry set equals the set model and replicas with equal sets expose equal heads/published heads and, when the ordering is strict-total there, identical Values(); self/empty/foreign-id merges leave the full snapshot unchanged. Exploration only: thousands of histories up to ~40 (quick) / ~100 (thorough) operations.",
         "note": "Trusts the harness's in-memory DAG store, its set model and registry; FirstWriteWins is not used as a log ordering; bounded by program size.",
     },
@@ -63,7 +63,7 @@ META = {
         "note": "Times stay far below MaxInt; the reload step relies on the loaders (C09).",
     },
     "C05": {
-        "technique": "stateful property-based testing (rapid): first-seen digests of every entry (by hash and by object identity) re-checked after every operation on every replica; plus generated concurrent programs under the cooperative scheduler (no entry vanishes at any write-unlock, the final view contains everything ever held or seen)",
+        "technique": "stateful property-based testing (rapid): first-seen digests of every entry (by hash and by object identity) re-checked after every operation on every replica; plus generated concurrent single-log and multi-log programs under the cooperative scheduler (no entry vanishes at any write-unlock, the final view contains everything ever held or seen)",
         "text": "After every operation every hash ever seen in a replica is still retrievable with an unchanged content digest, every entry object keeps its full digest (aliasing across replicas and loaded logs), Len never decreases, previous Values() is a subsequence of the new one (strict-total case). Exploration.",
         "note": "Bounded merges excluded (C16); a rebuild/reload counts as the same log.",
     },
